@@ -199,6 +199,70 @@ theorem verified_only_from_credentials (flag : Bool) (cfgNs sa : Str) (ids : Opt
       cases hv
       exact ⟨l, rfl, hmem, rfl⟩
 
+theorem firstAuth_some {results : List (Option (List Str))} {ids : List Str}
+    (h : authenticate.firstAuth results = some (some ids)) : ids ≠ [] ∧ some ids ∈ results := by
+  induction results with
+  | nil => simp [authenticate.firstAuth] at h
+  | cons r rest ih =>
+    cases r with
+    | none =>
+      simp only [authenticate.firstAuth] at h
+      exact ⟨(ih h).1, List.mem_cons_of_mem _ (ih h).2⟩
+    | some l =>
+      simp only [authenticate.firstAuth] at h
+      split at h
+      · rename_i hne
+        cases h
+        exact ⟨hne, List.mem_cons_self⟩
+      · exact ⟨(ih h).1, List.mem_cons_of_mem _ (ih h).2⟩
+
+theorem firstAuth_ne_nil (results : List (Option (List Str))) : authenticate.firstAuth results ≠ some none := by
+  induction results with
+  | nil => simp [authenticate.firstAuth]
+  | cons r rest ih =>
+    cases r with
+    | none => simpa [authenticate.firstAuth] using ih
+    | some l =>
+      simp only [authenticate.firstAuth]
+      split
+      · simp
+      · exact ih
+
+/-- `authenticate` yields identities only on a TLS stream (or plaintext when `XDS_AUTH_PLAINTEXT` is set),
+    only from a configured authenticator, and never an empty list: the list handed to `authorize` is either
+    nil (unauthenticated) or non-empty. -/
+theorem authenticate_sound (xdsAuth : Bool) (peer : Peer) (pt : Bool) (results : List (Option (List Str)))
+    (ids : List Str) (h : authenticate xdsAuth peer pt results = some (some ids)) :
+    xdsAuth = true ∧ ids ≠ [] ∧ some ids ∈ results ∧ (peer = .tls ∨ (peer = .plain ∧ pt = true)) := by
+  unfold authenticate at h
+  cases xdsAuth with
+  | false => simp at h
+  | true =>
+    simp only [Bool.not_true, Bool.false_eq_true, if_false] at h
+    cases peer with
+    | none => cases h
+    | plain =>
+      simp only at h
+      split at h
+      · rename_i hpt
+        exact ⟨rfl, (firstAuth_some h).1, (firstAuth_some h).2, Or.inr ⟨rfl, hpt⟩⟩
+      · cases h
+    | tls =>
+      simp only at h
+      exact ⟨rfl, (firstAuth_some h).1, (firstAuth_some h).2, Or.inl rfl⟩
+
+/-- A plaintext stream (port 15010) is never authenticated: its identity list is nil. -/
+theorem plaintext_unauthenticated (results : List (Option (List Str))) :
+    authenticate true .plain false results = some none := by
+  simp [authenticate]
+
+/-- On a TLS stream with authentication on, the stream is either rejected or carries identities: it is
+    never silently treated as unauthenticated. -/
+theorem tls_never_unauthenticated (pt : Bool) (results : List (Option (List Str))) :
+    authenticate true .tls pt results ≠ some none := by
+  simp only [authenticate, Bool.not_true, Bool.false_eq_true, if_false]
+  exact firstAuth_ne_nil results
+
 /-- `GetProxyConfigNamespace`: metadata wins. -/
 theorem configNamespace_meta (c : Claim) (h : c.metaNs ≠ []) : configNamespace c = c.metaNs := by
   simp [configNamespace, h]
